@@ -77,6 +77,7 @@ struct Op {
 struct TaskPlan {
     uint64_t arena_seed = 0;
     int parent = -1; // -1: created by the simulator before the pass starts
+    bool edge_end_used = false, edge_start_used = false; // generation only: a buffer already sits at that arena edge
     std::vector<Op> ops;
 };
 struct Plan {
@@ -259,7 +260,7 @@ void task_join(Task &self, int child);              // C13
 int lowest_runnable(int except);
 
 // arenas
-enum { ARENA_SIZE = 48 * 1024, ARENA_TAIL = 64 };
+enum { ARENA_SIZE = 48 * 1024, ARENA_TAIL = 64, ARENA_LO = 4, ARENA_HI = ARENA_SIZE - 4 }; // a task owns offsets [ARENA_LO, ARENA_HI)
 void arena_fill(Task &t);
 
 // handler log: harness handlers call this
